@@ -11,6 +11,7 @@ from . import core
 
 CHECKS = {
     # property id -> module under harness/ providing run(tier, seed, verdict)
+    "C07": "c07",
     "C09": "c09",
 }
 
